@@ -329,7 +329,10 @@ Inductive mop :=
 | MPop (k : Z) | MPopD (k d : Z) | MPopList (k : Z) | MPopItem (last : bool) | MPopListItem (last : bool)
 | MDel (k : Z) | MHas (k : Z) | MLen | MKeys | MValues | MItems | MListItems | MAllItems
 | MUpdate (ps : pairs) | MUpdateM (ps : pairs)   (* update(pairs | dict) ; update(modict(pairs)) *)
-| MClear | MCopy | MPickle.
+| MClear | MCopy | MPickle
+| MSift (fs : option (list Z))            (* m.sift() / m.sift(fields) *)
+| MInsert (i k v : Z)                     (* m.insert(i, k, v) : v becomes the only value of the new key k *)
+| MReorder (ps : pairs) | MReorderO (ps : pairs).   (* m.reorder(modict(ps)) ; m.reorder(odict(ps)) *)
 
 Inductive mres :=
 | QNone | QBool (b : bool) | QInt (n : Z) | QList (l : list Z) | QKeys (l : list Z)
@@ -348,6 +351,13 @@ Definition py_index (l : list Z) (i : Z) : option Z :=
   let n := Z.of_nat (length l) in
   let j := if i <? 0 then i + n else i in
   if (j <? 0) || (n <=? j) then None else nth_error l (Z.to_nat j).
+
+(* modict.sift(fields): every field once, in the order given, with ALL its values *)
+Definition m_sift (its : list (Z * list Z)) : mod_ :=
+  fold_left (fun r kl => if dmem (fst kl) (dict r) then r else m_adds (map (fun v => (fst kl, v)) (snd kl)) r) its empty.
+(* modict.reorder(other): each key of other takes other's value list and moves to the end *)
+Definition m_reorder (its : list (Z * list Z)) (m : mod_) : mod_ :=
+  fold_left (fun m kl => setitem (fst kl) (snd kl) (fst (delitem (fst kl) m))) its m.
 
 Definition m_step (m : mod_) (x : mop) : mod_ * mres :=
   match x with
@@ -389,6 +399,14 @@ Definition m_step (m : mod_) (x : mop) : mod_ * mres :=
   | MClear => (empty, QNone)
   | MCopy => (m, QObj (items (m_adds (allitems m) empty)))
   | MPickle => (m, QObj (items (m_adds (allitems m) empty)))
+  | MSift None => (m, QObj (items (m_adds (allitems m) empty)))
+  | MSift (Some fs) => (m, match lookups fs (dict m) with
+                           | None => QErr KeyError
+                           | Some its => QObj (items (m_sift its))
+                           end)
+  | MInsert i k v => let '(m', e) := insert i k [v] m in (m', match e with None => QNone | Some e => QErr e end)
+  | MReorder ps => (m_reorder (items (m_adds ps empty)) m, QNone)
+  | MReorderO ps => (m_reorder (map (fun p => (fst p, [snd p])) (items (@init Z ps))) m, QNone)
   end.
 
 Fixpoint m_trace (m : mod_) (ops : list mop) : list (mres * list Z * list (Z * list Z)) :=
@@ -413,7 +431,9 @@ Definition hist_step (k : Z) (h : list Z) (x : mop) : list Z :=
   | _ => h
   end.
 Definition is_popitem (x : mop) : bool :=
-  match x with MPopItem _ | MPopListItem _ => true | _ => false end.
+  (* the ops that are outside the per-key history specification [hist_step]: popitem removes whichever
+     key is first/last; insert / reorder create or REPLACE a key's list as a whole *)
+  match x with MPopItem _ | MPopListItem _ | MInsert _ _ _ | MReorder _ | MReorderO _ => true | _ => false end.
 Definition getlist (k : Z) (m : mod_) : list Z := match dget k (dict m) with Some l => l | None => [] end.
 
 (* ------------------------------------------------------------------ oset *)
